@@ -33,7 +33,10 @@ type RunSpec struct {
 	Fuzz         []string          `json:"fuzz,omitempty"`  // hex inputs (entry fuzz): one sub-run per input
 	Entry        string            `json:"entry,omitempty"`
 	Warm         []string          `json:"warm,omitempty"` // unrelated activity before the run (history independence)
-	Expect       string            `json:"expect,omitempty"` // relation to the previous run the specification must check
+	Expect       string            `json:"expect,omitempty"` // relation to an earlier run the specification must check
+	ExpectRun    int               `json:"expectRun,omitempty"` // which earlier run (1-based; 0 = the previous one)
+	StashPrev    bool              `json:"stashPrev,omitempty"` // move the file saved by the previous run out of testdata (to ./stash) first
+	FailfileRun  int               `json:"failfileRun,omitempty"` // -rapid.failfile=<file saved by run k> (after stashing, its new place)
 }
 
 type Scenario struct {
@@ -211,7 +214,7 @@ func seedSchedule(base uint64, n int) []uint64 {
 // RunScenario executes one scenario against the real library and records it.
 func RunScenario(t *testing.T, rec *Recorder, sc *Scenario) {
 	orig, _ := os.Getwd()
-	dir, err := os.MkdirTemp("", "verif-scen-")
+	dir, err := os.MkdirTemp(*fWork, "verif-scen-")
 	if err != nil {
 		t.Fatal(err)
 	}
@@ -234,15 +237,27 @@ func RunScenario(t *testing.T, rec *Recorder, sc *Scenario) {
 	if len(runs) == 0 {
 		runs = []RunSpec{{}}
 	}
-	begin := F{"id": sc.ID, "name": name, "sname": SafeName(name), "entry": entry, "nruns": len(runs)}
+	rec.Pause()
+	ver := rapidVersionOf()
+	rec.Resume()
+	begin := F{"id": sc.ID, "name": name, "sname": SafeName(name), "entry": entry, "nruns": len(runs), "version": ver}
 	for k, v := range sc.Tag {
 		begin[k] = v
 	}
 	rec.Emit("scen.begin", begin)
 	r := NewRunner(rec)
 	prevSeed, prevFile := "", ""
+	savedFiles := map[int]string{}
 	for i := range runs {
 		run := &runs[i]
+		if run.StashPrev && prevFile != "" {
+			_ = os.MkdirAll(filepath.Join(dir, "stash"), 0o775)
+			dst := filepath.Join(dir, "stash", filepath.Base(prevFile))
+			if err := os.Rename(prevFile, dst); err == nil {
+				savedFiles[i] = dst
+				prevFile = dst
+			}
+		}
 		if run.CleanDir {
 			d2, _ := os.MkdirTemp(dir, "clean-")
 			_ = os.Chdir(d2)
@@ -254,6 +269,9 @@ func RunScenario(t *testing.T, rec *Recorder, sc *Scenario) {
 		}
 		if run.FailfilePrev && prevFile != "" {
 			extra["rapid.failfile"] = prevFile
+		}
+		if run.FailfileRun > 0 && savedFiles[run.FailfileRun] != "" {
+			extra["rapid.failfile"] = savedFiles[run.FailfileRun]
 		}
 		eff := setFlags(sc.Flags, run.Flags, extra)
 		for _, w := range run.Warm {
@@ -292,7 +310,7 @@ func RunScenario(t *testing.T, rec *Recorder, sc *Scenario) {
 		pre := snapshotFS(name)
 		rec.Emit("run.begin", F{"run": i + 1, "entry": ren, "checks": checks, "seed": W(seed), "fixedseed": seed != 0,
 			"nofailfile": eff["rapid.nofailfile"] == "true", "failfile": eff["rapid.failfile"], "shrinktime": eff["rapid.shrinktime"],
-			"steps": eff["rapid.steps"], "v": eff["rapid.v"] == "true", "files": pre, "keyed": p.Keyed, "expect": run.Expect})
+			"steps": eff["rapid.steps"], "v": eff["rapid.v"] == "true", "files": pre, "keyed": p.Keyed, "expect": run.Expect, "expectRun": run.ExpectRun})
 		prop := r.Prop(p)
 		switch ren {
 		case "check":
@@ -334,6 +352,7 @@ func RunScenario(t *testing.T, rec *Recorder, sc *Scenario) {
 			if abs, err := filepath.Abs(prevFile); err == nil {
 				prevFile = abs
 			}
+			savedFiles[i+1] = prevFile
 		}
 		rec.Emit("fs", F{"run": i + 1, "files": snapshotFS(name)})
 	}
@@ -388,4 +407,30 @@ func warm(kind string) {
 			})
 		})
 	}
+}
+
+var cachedVersion string
+
+// rapidVersionOf learns the library's fail-file version from a file the library itself writes (public behaviour only).
+func rapidVersionOf() string {
+	if cachedVersion != "" {
+		return cachedVersion
+	}
+	orig, _ := os.Getwd()
+	d, err := os.MkdirTemp(*fWork, "verif-ver-")
+	if err != nil {
+		return ""
+	}
+	defer func() { _ = os.Chdir(orig); _ = os.RemoveAll(d) }()
+	_ = os.Chdir(d)
+	setFlags(map[string]string{"checks": "1", "shrinktime": "0s"})
+	tb := NewRecTB("TestVersionProbe", nil)
+	tb.Run(func() { rapid.Check(tb, func(t *rapid.T) { t.Fatalf("probe") }) })
+	setFlags()
+	for _, f := range snapshotFS("TestVersionProbe") {
+		if v, ok := f.(F)["version"].(string); ok {
+			cachedVersion = v
+		}
+	}
+	return cachedVersion
 }
